@@ -259,6 +259,8 @@ def check(ctx, prog, scope, floor=1, what="branch-free bodies in scope"):
             # depends on whether a dedicated rule of this check reads the body - decided when the check finishes.
             ctx.deferred.append((R, "%s is branch-free and has its reviewed value" % f.short, "no longer branch-free, and no other rule of this check reads the body", f.loc(), prog.cfg, (prog.cfg, f.path)))
             continue
+        if (prog.cfg, f.path) not in ctx.analysed["functions"]:
+            ctx.generic_visits.add((prog.cfg, f.path))
         ctx.visit(f)
         if "Const" in (f.kind or ""):
             cn = const_normal(prog, f)
@@ -509,6 +511,8 @@ def check_paths(ctx, prog, scope, floor=1):
         if got is None:
             ctx.deferred.append((R2, "%s keeps its reviewed (conditions -> result) table" % f.short, "no longer a loop-free, effect-free body, and no other rule of this check reads it", f.loc(), prog.cfg, (prog.cfg, f.path)))
             continue
+        if (prog.cfg, f.path) not in ctx.analysed["functions"]:
+            ctx.generic_visits.add((prog.cfg, f.path))
         ctx.visit(f)
         ok = got == want
         why = "%d result site(s)" % len(got)
